@@ -4,6 +4,7 @@ CONSTANTS
   Bodies <- BodiesT
   Modes <- AllModes
   ValueChoices <- DefaultValues
+  Ends <- OneEnd
   Seconds <- NoSecond
   TickMs <- Ticks2
   MaxTicks = 5
